@@ -608,14 +608,17 @@ class StaticResource(PrefixResource):
         norm_path = os.path.normpath(path)
         if IS_WINDOWS:
             norm_path = norm_path.replace("\\", "/")
-        if not norm_path.startswith(self._prefix2) and norm_path != self._prefix:
+        # The prefix is kept quoted (for url_for()); paths are matched on
+        # their ``path_safe`` form.
+        prefix = _path_safe(self._prefix)
+        if not norm_path.startswith(prefix + "/") and norm_path != prefix:
             return None, set()
 
         allowed_methods = self._allowed_methods
         if method not in allowed_methods:
             return None, allowed_methods
 
-        match_dict = {"filename": _unquote_path_safe(path[len(self._prefix) + 1 :])}
+        match_dict = {"filename": _unquote_path_safe(path[len(prefix) + 1 :])}
         return (UrlMappingMatchInfo(match_dict, self._routes[method]), allowed_methods)
 
     def __len__(self) -> int:
@@ -1087,8 +1090,9 @@ class UrlDispatcher(AbstractRouter, Mapping[str, AbstractResource]):
             # the index key will be `/core` since index is based on the
             # url parts split by `/`
             index_key = index_key.partition("{")[0].rpartition("/")[0]
-            # the index is walked with parts of ``path_safe``
-            index_key = _path_safe(index_key)
+        # the index is walked with parts of ``path_safe``
+        # (prefix resources keep their prefix quoted: ``/a%20b``, ``/%C3%A9``)
+        index_key = _path_safe(index_key)
         return index_key.rstrip("/") or "/"
 
     def index_resource(self, resource: AbstractResource) -> None:
